@@ -29,6 +29,7 @@
 #include <kernel/lafem/sparse_matrix_csr.hpp>
 
 #include <numeric>
+#include <memory>
 #include <deque>
 
 using namespace FEAT;
@@ -971,7 +972,8 @@ int main(int argc, char** argv)
               Coloring al(n, col.get_num_colors());
               for(Index i = 0; i < n; ++i) al[i] = cv[i];
               check_coloring_result(c, g, al, "coloring.allocation ctor result", "");
-              Coloring tgt(n, cv.data());
+              Coloring tgt(n + 1, col.get_num_colors() + 3); // a filled target of another size and colour count
+              for(Index i = 0; i <= n; ++i) tgt[i] = i % (col.get_num_colors() + 3);
               Coloring src = col.clone();
               tgt = std::move(src);
               check_coloring_result(c, g, tgt, "coloring.move-assign", "");
@@ -1202,6 +1204,7 @@ int main(int argc, char** argv)
             }
             Graph gt(RenderType::transpose, d);
             c.check(read_graph(gt, got, err) && got == ref_transpose(want), "dynamic_graph.history render transpose", [&]{ return err + str(got); });
+            { std::unique_ptr<DynamicGraph> hp(new DynamicGraph(d.clone())); c.check(read_adj(*hp) == want, "dynamic_graph.history heap clone", ""); } // virtual (deleting) destructor
             DynamicGraph dt(RenderType::transpose, d);
             c.check(read_adj(dt) == ref_transpose(want), "dynamic_graph.history dynamic transpose", "");
           }
